@@ -481,6 +481,57 @@ impl PrettyPrinter {
     }
 }
 
+/// Verification hooks (feature `verif` only): the private `PrettyPrinter` driven directly with a
+/// given terminal size, keeping its column-width memory across calls.
+#[cfg(feature = "verif")]
+pub mod verif {
+    use super::*;
+
+    pub struct Pretty(PrettyPrinter);
+
+    impl Pretty {
+        /// `size` is `(width, height)`; `None` = no terminal
+        pub fn new(size: Option<(u16, u16)>, min_buffer: usize, max_buffer: usize) -> Self {
+            Pretty(PrettyPrinter::new(
+                RenderConfig {
+                    display_config: DisplayConfig { floating_points: 2 },
+                    min_buffer,
+                    max_buffer,
+                },
+                size.map(|(width, height)| TerminalSize { width, height }),
+            ))
+        }
+
+        pub fn format_aggregate(&mut self, aggregate: &Aggregate) -> String {
+            self.0.format_aggregate(aggregate)
+        }
+
+        pub fn format_record_as_columns(&mut self, record: &Record) -> String {
+            self.0.format_record_as_columns(record)
+        }
+
+        /// remembered column widths, sorted by column name
+        pub fn column_widths(&self) -> Vec<(String, usize)> {
+            let mut v: Vec<(String, usize)> = self
+                .0
+                .column_widths
+                .iter()
+                .map(|(k, w)| (k.clone(), *w))
+                .collect();
+            v.sort();
+            v
+        }
+
+        pub fn column_order(&self) -> Vec<String> {
+            self.0.column_order.clone()
+        }
+    }
+
+    pub fn format_with_ellipsis(inp: &str, limit: usize) -> String {
+        super::format_with_ellipsis(inp, limit)
+    }
+}
+
 #[cfg(test)]
 mod tests {
     use super::*;
